@@ -111,5 +111,9 @@ package method_evaluator
 //@   # row of the call and the enclosing method/class (whatever kind of method token it is)
 //@   ensures[C24] ctx.round == "check" ==> mapwrites(base.MethodCallPoint) == 1 && mapwrites(base.MethodCalleePoint) == 1
 //@   ensures[C24] ctx.round != "check" ==> mapwrites(base.MethodCallPoint) == 0 && mapwrites(base.MethodCalleePoint) == 0
-//@   mapwrite[C24] base.MethodCallPoint value[len(value)-1].Point == p.FileName + ":" + strconv.Itoa(p.Row)
+//@   # the call's row is the row of the last token read that is not a newline (ErrorRow, see the
+//@   # parser's row accounting), not the reader's row, which is already one further when the call
+//@   # is the last thing on its line
+//@   mapwrite[C24] base.MethodCallPoint value[len(value)-1].Point == p.FileName + ":" + strconv.Itoa(p.ErrorRow)
+//@   witness site:mapwrite.2#0 "def helper\n  1\nend\n\ndef run\n  helper\n  y = 2\nend\n" args "--llm-nav --target=helper" expect "call point: in.rb:7"
 //@   mapwrite[C24] base.MethodCallPoint value[len(value)-1].CallerFrame == ctx.frame && value[len(value)-1].CallerClass == ctx.class && value[len(value)-1].CallerMethod == ctx.method
